@@ -207,6 +207,9 @@ func (c *Authority) VerifyAnyQC(proposal *hotstuff.ProposeMsg) error {
 	qc := proposal.Block.QuorumCert()
 	aggQC := proposal.AggregateQC
 	if c.config.HasAggregateQC() && aggQC != nil {
+		if aggQC.Sig() == nil {
+			return fmt.Errorf("aggregate quorum certificate has nil signature (view=%d)", aggQC.View())
+		}
 		highQC, err := c.VerifyAggregateQC(*aggQC)
 		if err != nil {
 			return err
